@@ -119,6 +119,7 @@ func init() {
 		"math.Ceil": func(e *Exec, st *State, call *ast.CallExpr, recv Term, args []Term) []Term {
 			// real-number model: least integer >= x
 			x := args[0]
+			e.ieeeCeilDiv(st, call, x)
 			return []Term{Term{fmt.Sprintf("(ite (= (to_real (to_int %s)) %s) %s (to_real (+ (to_int %s) 1)))", x.S, x.S, x.S, x.S), SReal}}
 		},
 		"math.Floor": func(e *Exec, st *State, call *ast.CallExpr, recv Term, args []Term) []Term {
@@ -557,4 +558,53 @@ func isRet0(x ast.Expr) bool {
 	}
 	lit, ok := c.Args[0].(*ast.BasicLit)
 	return ok && lit.Value == "0"
+}
+
+
+// ieeeCeilDiv: float64 values are modelled by exact reals. For math.Ceil(float64(A) / K) with an integer A and a
+// positive integer constant K (the only floating-point computation on a verified path: TrustCount), the model is
+// justified by two obligations when the contract says `float`: (1) 0 <= A < 2^31 on this path, and (2) for every
+// such A the IEEE-754 binary64 computation - int64 to double, division (round-to-nearest-even), round toward
+// +infinity, conversion back - yields exactly ceil(A/K). (2) is a closed QF_BVFP query, decided by cvc5 in about
+// a minute: thorough tier only.
+func (e *Exec) ieeeCeilDiv(st *State, call *ast.CallExpr, x Term) {
+	if e.Fn == nil || e.Fn.C == nil || !e.Fn.C.FloatBV || len(e.frames) != 1 || e.spec > 0 {
+		return
+	}
+	parts := splitSexp(x.S)
+	if len(parts) != 3 || parts[0] != "/" {
+		e.unsupported(call.Pos(), "float: math.Ceil argument is not float64(int)/constant")
+		return
+	}
+	num := splitSexp(parts[1])
+	if len(num) != 2 || num[0] != "to_real" {
+		e.unsupported(call.Pos(), "float: numerator of math.Ceil argument is not float64(int)")
+		return
+	}
+	k := strings.TrimSuffix(parts[2], ".0")
+	var kv int64
+	if _, err := fmt.Sscanf(k, "%d", &kv); err != nil || kv <= 0 || kv > 1<<20 || fmt.Sprint(kv) != k {
+		e.unsupported(call.Pos(), "float: divisor of math.Ceil argument is not a small positive integer constant")
+		return
+	}
+	a := Term{num[1], SInt}
+	e.floatN++
+	e.Ctx.AddObligation(e.Fn.FullName(), "float", fmt.Sprintf("%s/float/range#%d", e.fnName(), e.floatN), st.PC,
+		And(Ge(a, Int(0)), Lt(a, Int(1<<31))), e.pos(call.Pos()))
+	raw := fmt.Sprintf(`; IEEE-754 binary64 faithfulness of int(math.Ceil(float64(n)/%d)) for 0 <= n < 2^31
+(set-logic QF_BVFP)
+(declare-const n (_ BitVec 64))
+(assert (bvsge n #x0000000000000000))
+(assert (bvslt n #x0000000080000000))
+(define-fun x () (_ FloatingPoint 11 53) ((_ to_fp 11 53) RNE n))
+(define-fun k () (_ FloatingPoint 11 53) ((_ to_fp 11 53) RNE (_ bv%d 64)))
+(define-fun q () (_ FloatingPoint 11 53) (fp.div RNE x k))
+(define-fun c () (_ FloatingPoint 11 53) (fp.roundToIntegral RTP q))
+(define-fun r () (_ BitVec 64) ((_ fp.to_sbv 64) RTZ c))
+(assert (not (= r (bvudiv (bvadd n (_ bv%d 64)) (_ bv%d 64)))))
+(check-sat)
+`, kv, kv, kv-1, kv)
+	o := e.Ctx.AddObligation(e.Fn.FullName(), "float", fmt.Sprintf("%s/float/ieee-ceil-div-%d#%d", e.fnName(), kv, e.floatN), True, True, e.pos(call.Pos()))
+	o.Raw = raw
+	o.ThoroughOnly = true
 }
